@@ -90,6 +90,14 @@ type replayParams struct {
 	Package    string            `json:"package"`
 }
 
+// tryReplayRelaxed replays a candidate model obtained without the quantified hypotheses.
+func tryReplayRelaxed(o *Options, e *Engine, ob *Obligation, path string) string {
+	saved := ob.Output
+	ob.Output = ob.Model
+	defer func() { ob.Output = saved }()
+	return tryReplay(o, e, ob, path)
+}
+
 // tryReplay attempts to reproduce a counterexample on the real code.
 func tryReplay(o *Options, e *Engine, ob *Obligation, path string) string {
 	bc := ob.cx.bc
